@@ -63,6 +63,10 @@ func c12Dump(c c12Case, dir string) (string, intoto.Metadata, error) {
 		}
 	}
 	p := filepath.Join(dir, "meta.json")
+	if c.A%2 == 0 {
+		// the target already exists and is longer than what is written now (an older, bigger version)
+		_ = os.WriteFile(p, []byte(`{"signed": {"_type": "link"}, "signatures": [], "padding": "`+strings.Repeat("old content ", 40000)+`"}`), 0o644)
+	}
 	if err := md.Dump(p); err != nil {
 		return "", nil, fmt.Errorf("Dump: %v", err)
 	}
